@@ -499,7 +499,7 @@ func (r *setRun) judge(full, n *Node, mode string, p EvalParams, ref, got *Resul
 	if ref.points() > 0 {
 		c.Nontrivial(mode + "|" + n.Shape())
 		c.Sample(map[string]any{"expr": n.String(), "mode": mode, "params": paramStr(mode, p), "sample_set": r.set.Index,
-			"series_compared": len(ref.Series), "points_compared": ref.points(), "first_series": ref.render(1)[len(ref.render(1))-1]})
+			"series_compared": len(ref.Series), "points_compared": ref.points(), "first_series": ref.render(1)[1]})
 		for t := range tags {
 			c.Count("nonempty-results-by-construct/"+mode+"/"+t, 1)
 			nonemptyMu.Lock()
